@@ -14,7 +14,7 @@
 EXTENDS Rat, Sequences, TLC, Json, FiniteSets
 
 CONSTANTS Grid,       \* set of integer component values
-          Systems,    \* subset of 1..4: coordinate-system objects in play
+          Systems,    \* subset of 1..6: coordinate-system objects in play
           NOps,       \* operands per behaviour: 2 (pairs) or 3 (triples)
           Scalars,    \* integer scale factors used by the scaling clauses
           Lens        \* subset of 0..3: numbers of components in play
@@ -28,8 +28,11 @@ Grid3 == {-1, 0, 2}
 Grid1 == {1}
 Scalars3 == {-1, 0, 2}
 
-\* four coordinate-system objects: two distinct Cartesian ones, a cylindrical and a spherical one
-SysType == <<"cart", "cart", "cyl", "sph">>
+\* six coordinate-system objects: two distinct Cartesian ones, a cylindrical and a spherical one with their own
+\* underlying frames, and a cylindrical (5) and a spherical (6) one that WRAP THE SAME underlying frame (CoordSys3D)
+\* as the Cartesian system 1 - they share the frame but differ in kind, so they are different coordinate systems
+SysType  == <<"cart", "cart", "cyl", "sph", "cyl", "sph">>
+SysFrame == <<1, 2, 3, 4, 1, 1>>
 
 Comps   == UNION {[1..n -> Grid] : n \in Lens}
 Vectors == [sys : Systems, c : Comps]
@@ -140,6 +143,12 @@ RefusalRules ==
       /\ Verdict(op, ops[1], ops[2]) = Verdict(op, ops[2], ops[1])
       /\ (Verdict(op, ops[1], ops[2]) = "accept") = BothCart(ops[1], ops[2])
       /\ (ops[1].sys # ops[2].sys => Verdict(op, ops[1], ops[2]) = "refuse")
+      \* sharing the underlying frame does not make two systems of different kind the same system,
+      \* and two systems of one kind over different frames are different systems
+      /\ (SysFrame[ops[1].sys] = SysFrame[ops[2].sys] /\ SysType[ops[1].sys] # SysType[ops[2].sys]
+            => Verdict(op, ops[1], ops[2]) = "refuse")
+      /\ (SysType[ops[1].sys] = SysType[ops[2].sys] /\ SysFrame[ops[1].sys] # SysFrame[ops[2].sys]
+            => Verdict(op, ops[1], ops[2]) = "refuse")
 \* an n-ary sum is accepted iff every pair of its operands may be added; the verdict ignores the order
 NaryRefusalRules ==
   Len(ops) >= 2 =>
